@@ -10,6 +10,9 @@ PROP = 'C03'
 SA, PA = 0x10, 0x20
 RLAT = [1e-3, 0.0, 0.05, 0.15]
 HOLDS = [0, 1, 2, 3]
+# time between the CTS frames of a hold: the responder must repeat them within Th = 0.5 s; 0.505 = queued in time and delayed
+# 5 ms by arbitration (the originator's T4 = 1.05 s exists to absorb that)
+HOLDGAP = [0.4, 0.5, 0.505]
 DTGAP = [0.0, 0.05, 0.19]
 
 
@@ -25,7 +28,8 @@ def build(sc, prefix=()):
     ca.subscribe(rec.cb('S.ca'))
     bamgap = [0.05, 0.1, 0.2] if dll == 'j1939-21' else [0.01, 0.05, 0.2]
     peer = RefPeer(bus, 'P', PA, dll, grants=sc.get('grants'), holds=sc.get('holds', HOLDS),
-                   rlat=sc.get('rlat', RLAT), dt_gap=sc.get('dtgap', DTGAP), bam_gap=bamgap)
+                   rlat=sc.get('rlat', RLAT), dt_gap=sc.get('dtgap', DTGAP), bam_gap=bamgap,
+                   hold_gap=sc.get('holdgap', HOLDGAP))
     mon = Monitor(dll, win_of={SA: sc.get('win', 1)})
     bus.taps.append(mon.feed)
     w.run_for(0.01)
@@ -61,14 +65,14 @@ def run_one(sc, prefix=(), seed=0, keep=False):
                     probs.append("frame from the stack: " + text)
             msgs = [m for m in mon.messages if m['src'] == 'S']
             want = (SA, da, pgn, bytes(data))
-            got = [(m['sa'], m['da'], m['pgn'] & (0x3FFFF if pf >= 240 else 0x3FF00), m['data']) for m in msgs]
+            got = [(m['sa'], m['da'], m['pgn'], m['data']) for m in msgs]
             if got != [want]:
                 probs.append("frames on the bus decode to %s, submitted %s" % (
                     [(hex(a), hex(b), hex(c), len(d), d[:8].hex()) for (a, b, c, d) in got],
                     (hex(want[0]), hex(want[1]), hex(want[2]), len(want[3]), want[3][:8].hex())))
             for p in peer.problems:
                 probs.append("conforming peer: " + p)
-            pg = [(p_ & (0x3FFFF if pf >= 240 else 0x3FF00), s_, d_, x) for (p_, s_, d_, x) in peer.received]
+            pg = [(p_, s_, d_, x) for (p_, s_, d_, x) in peer.received]
             if pg != [(pgn, SA, da, bytes(data))]:
                 probs.append("conforming peer reassembled %d message(s), not exactly the submitted one" % len(pg))
         else:
@@ -162,6 +166,14 @@ def scenarios(tier):
             for kind in ('bam2', 'bam1'):
                 sc = {'dll': dll, 'role': 'orig', 'kind': kind, 'size': size, 'win': 1, 'pat': (size + 1) % 3}
                 items.append((sc, 0))
+        # (a2) stack originates and the peer always holds the connection first (2 or 3 hold CTS, also between windows): the
+        #      spacing of the hold frames {0.4, 0.5 (= Th), 0.505 s} and the peer's other choices are then single deviations
+        for size in small[:3]:
+            for win in (1, 255):
+                for nh in (2, 3):
+                    sc = {'dll': dll, 'role': 'orig', 'kind': 'p2p', 'size': size, 'win': win, 'grants': [1, 2],
+                          'pat': size % 3, 'dp': size % 2, 'holds': [nh, 0]}
+                    items.append((sc, 1 if quick else 2))
         # (b) conforming peer originates
         for size in small + mid + large:
             for win in wins:
@@ -183,12 +195,12 @@ def scenarios(tier):
 
 RULE = ("scenario = layer x role of the stack (originator / responder / BAM sender / BAM receiver) x size x the stack's "
         "window x the peer's RTS limit; the conforming reference peer's free choices (grant per CTS 1..min(limit, "
-        "remaining), 0..3 hold CTS spaced 0.4 s, reply latency {0,1,50,150 ms}, packet spacing {0,50,190 ms}, BAM spacing "
+        "remaining), 0..3 hold CTS spaced {0.4, 0.5, 0.505} s, reply latency {0,1,50,150 ms}, packet spacing {0,50,190 ms}, BAM spacing "
         "{50,100,200} / {10,50,200} ms) are choice points explored with deviation bound 1 (small sizes thorough: 2); "
         "distinct by (scenario, choices), all non-trivial (every case is a multi-packet transfer)")
 ASSUME = ["the reference codec / peer are the harness author's implementation of the SAE layouts (J1939-22: from memory, "
           "normative text not available offline)", "retransmission requests are outside the property's envelope and are not generated",
-          "PDU1 PGNs are compared modulo the PS byte"]
+          "the PGN of a PDU1 group is (data page, PF, 0): the PS byte is the destination"]
 
 
 def run(tier, seed):
